@@ -116,7 +116,9 @@ CLAIMS = {
         "Decides the construction discipline in lowering: column/table ids only from the id generators, a Compute is "
         "pushed and mapped before its id is returned, pipelines are closed by push_select at the single construction site of "
         "RelationKind::Pipeline, table declarations precede instances, redirects follow pull-outs.",
-        "Not decided: that node_mapping lookups hit (value-dependent; C12 classes).",
+        "Not decided: that node_mapping lookups hit (value-dependent; C12 classes); which node ids the resolver gives to an expression used twice, "
+        "de-duplication of table-instance columns, hoisting order of window functions in join conditions (six causes of a non-closed RQ found by "
+        "probing the unchanged tree, findings_detail/c16_c05_hunt, none detected).",
         "def-use / must-pass-through at construction sites", "DESIGN.md 4 C16"),
     "C17": claim(
         "Decides: token spans come from the consuming combinator's span in every Token construction, rejection returns no "
